@@ -31,6 +31,7 @@ import (
 	"strconv"
 	"strings"
 	"time"
+	"unicode/utf8"
 
 	"github.com/gontainer/gontainer-helpers/v3/exporter"
 	"github.com/gontainer/gontainer-helpers/v3/grouperror"
@@ -535,7 +536,7 @@ func runOne(tmpbase string, c caseSpec) (res map[string]any) {
 	seen := map[string]bool{}
 	filesInfo := map[string]any{}
 	for _, p := range c.Patterns {
-		g := map[string]any{"pattern": p}
+		g := map[string]any{"pattern": p, "goquoted": strconv.Quote(p)}
 		m, err := filepath.Glob(p)
 		if err != nil {
 			g["err"] = err.Error()
@@ -567,6 +568,11 @@ func runOne(tmpbase string, c caseSpec) (res map[string]any) {
 	res["globs"] = globs
 	res["files"] = filesInfo
 
+	// age a pre-existing output file so that a rewrite with identical bytes is still visible
+	aged := time.Date(2001, 2, 3, 4, 5, 6, 0, time.UTC)
+	if st, err := os.Stat(c.Output); err == nil && !st.IsDir() {
+		_ = os.Chtimes(c.Output, aged, aged)
+	}
 	before := statOf(c.Output)
 	res["out_before"] = before
 
@@ -616,6 +622,11 @@ func runOne(tmpbase string, c caseSpec) (res map[string]any) {
 	res["stderr"] = stderr.String()
 	after := statOf(c.Output)
 	res["out_after"] = after
+	if st, err := os.Stat(c.Output); err == nil && !st.IsDir() {
+		res["out_touched"] = !before.Exists || !st.ModTime().Equal(aged)
+	} else {
+		res["out_touched"] = false
+	}
 	if c.KeepOut && after.Exists && !after.IsDir {
 		b, _ := os.ReadFile(c.Output)
 		res["out_content"] = string(b)
@@ -665,7 +676,7 @@ func runCases(tmpbase string) {
 		go func() { done <- runOne(tmpbase, c) }()
 		select {
 		case r := <-done:
-			_ = enc.Encode(r)
+			_ = enc.Encode(hexInvalid(r))
 		case <-time.After(caseTimeout()):
 			_ = enc.Encode(map[string]any{"id": c.ID, "hang": true, "seconds": caseTimeout().Seconds()})
 			w.Flush()
@@ -673,6 +684,46 @@ func runCases(tmpbase string) {
 		}
 		w.Flush()
 	}
+}
+
+// hexInvalid walks a result and replaces every string that is not valid UTF-8 (keys included) by a marker carrying its bytes in
+// hex: encoding/json would silently turn such bytes into U+FFFD.  The harness decodes the marker back to the exact bytes.
+func hexInvalid(v any) any {
+	mark := func(s string) string {
+		if utf8.ValidString(s) {
+			return s
+		}
+		return "\uE000HEX:" + hex.EncodeToString([]byte(s))
+	}
+	switch x := v.(type) {
+	case string:
+		return mark(x)
+	case []string:
+		out := make([]any, len(x))
+		for i, e := range x {
+			out[i] = mark(e)
+		}
+		return out
+	case []any:
+		out := make([]any, len(x))
+		for i, e := range x {
+			out[i] = hexInvalid(e)
+		}
+		return out
+	case map[string]any:
+		out := make(map[string]any, len(x))
+		for k, e := range x {
+			out[mark(k)] = hexInvalid(e)
+		}
+		return out
+	case map[string]string:
+		out := make(map[string]any, len(x))
+		for k, e := range x {
+			out[mark(k)] = mark(e)
+		}
+		return out
+	}
+	return v
 }
 
 func caseTimeout() time.Duration {
